@@ -146,6 +146,7 @@ def stepCore (d : DState) (line : String) : DState × String :=
         ({ d with store := s, born := s.blobs.map (fun b => (b.id, d.now)) }, "ok")
       | "crashsweep" :: _ => (d, "sweep ok")   -- crash states are explored on copies; the live storage goes on
       | "metasweep" :: _ => (d, "sweep ok")    -- metadata round-trips are explored in a scratch directory
+      | "offfault" :: _ => (d, "sweep ok")     -- an off-loaded filter with an unreadable index file, in a scratch directory
       | "toolsweep" :: _ =>
         let s := d.store.apply (.restart false)
         ({ d with store := s, born := s.blobs.map (fun b => (b.id, d.now)) }, "sweep ok")
